@@ -1,4 +1,5 @@
 import PC.Proofs.SupGate
+import PC.Proofs.SupPassRule
 import PC.Spec.SupSpec
 /-! C05 — unsatisfiable dependency ⇒ dependent skipped, transitively (supervisor model). -/
 namespace PC.Props.C05
@@ -86,6 +87,48 @@ theorem unmet_condition_skips (s : Sys) (t : Tid) (i d : IId) (rest) (ht : t < s
   · simp [armWaitReady, h, hskip]
   · simp [armWaitLogReady, h, hskip]
 
+
+/-! ### Launched means every declared condition was met — in every execution, at any depth -/
+
+/-- **No launch past an unmet condition.** In every state the supervisor can reach, a process thread
+    that stands in the launch phase of `run()` (the only place where a command is started) has, for
+    each of its dependencies, either found no instance under that name when it looked, or found an
+    instance `d` and woke up from its wait on `d` in a state `s1` of this very execution in which the
+    declared condition held: reported exit code 0 under `process_completed_successfully`, health
+    Ready under `process_healthy`, the ready line seen (not the abort) under `process_log_ready`.
+    Since a skipped process is reported with exit code 1 (`skip_effect`), this is the transitive
+    rule at every depth: the dependents of a skipped process are launched only if its name reports
+    exit code 0 again (a later manual restart that succeeds), never on the strength of the skip. -/
+theorem launch_needs_met (gr : Gran) (o : Bool) (cfgs : List Cfg) (s : Sys) (h : Reach (init gr o cfgs) s)
+    (t : Tid) (ht : t < s.threads.length) (i : IId) (hk : (s.thr t).kind = .proc i)
+    (hl : (s.thr t).pc.isLaunch = true) :
+    ∀ dep ∈ (s.icfg i).deps,
+      GateEv.notFound i dep.1 ∈ s.gate ∨
+      ∃ d s1, GateEv.found i dep.1 d ∈ s.gate ∧ ReachF (init gr o cfgs) s1 ∧ ReachF s1 s ∧ Met s1 dep.2 d := by
+  have g := reach_gateInv gr o cfgs h
+  intro dep hd
+  rcases (g.thr t ht i hk).2.1 hl dep hd with e | ⟨d, e1, e2⟩
+  · exact Or.inl e
+  · obtain ⟨s1, t1, h1, r1, r0, r2, m, _, _⟩ :=
+      passed_was_met h.fine (by intro i d c hm; simp [init] at hm) i d dep.2 e2
+    exact Or.inr ⟨d, s1, e1, r1, r0.trans r2, m⟩
+
+/-- the contrapositive, for `process_completed_successfully`: a dependent that found its dependency
+    and never saw its name report exit code 0 in this execution is not in the launch phase -/
+theorem unmet_never_launched (gr : Gran) (o : Bool) (cfgs : List Cfg) (s : Sys) (h : Reach (init gr o cfgs) s)
+    (t : Tid) (ht : t < s.threads.length) (i : IId) (hk : (s.thr t).kind = .proc i)
+    (k : Name) (hd : (k, Cond.completedOk) ∈ (s.icfg i).deps)
+    (hf : GateEv.notFound i k ∉ s.gate)
+    (hne : ∀ d s1, GateEv.found i k d ∈ s.gate → ReachF (init gr o cfgs) s1 → ReachF s1 s →
+      (s1.ps (s1.nameOf d)).exit ≠ 0) :
+    (s.thr t).pc.isLaunch = false := by
+  cases hl : (s.thr t).pc.isLaunch with
+  | false => rfl
+  | true =>
+    rcases launch_needs_met gr o cfgs s h t ht i hk hl _ hd with e | ⟨d, s1, e1, r1, r2, m⟩
+    · exact absurd e hf
+    · exact absurd m (hne d s1 e1 r1 r2)
+
 /-! Non-vacuity: a → b → c chained with `process_completed_successfully`; `a` exits 3:
     `b` and `c` are both skipped (exit code 1) and neither is launched. -/
 def chain3 : List Cfg := [{}, { deps := [(0, .completedOk)] }, { deps := [(1, .completedOk)] }]
@@ -96,5 +139,13 @@ example : let s := (runTrace (init .coarse false chain3) tr3).1
     (s.ps 1).status = .skipped ∧ (s.ps 1).exit = 1 ∧ (s.ps 2).status = .skipped ∧ (s.ps 2).exit = 1 := by decide
 set_option maxRecDepth 4000 in
 example : (runTrace (init .coarse false chain3) tr3).2.filter isLaunch = [.launch 0] := by decide
+
+/-- the hypotheses of `launch_needs_met` are met by a real execution: `a` exits 0, `b` (which waits
+    for `a` to complete successfully) is woken, passes and stands in the launch phase -/
+example :
+    let s := (runTrace (init .coarse false [{}, { deps := [(0, .completedOk)] }])
+      [.call 0 .runMain, .run 0, .run 1, .run 2, .exit 0 0, .run 1, .run 2]).1
+    (s.thr 2).kind = .proc 1 ∧ (s.thr 2).pc.isLaunch = true ∧
+    s.gate = [.passed 1 0 .completedOk, .found 1 0 0] := by decide
 
 end PC.Props.C05
